@@ -33,8 +33,9 @@ def new_line(case, plans):
         sites.append(L([s["id"], -1 if f is None else f, 1 if s.get("deploy", True) else 0, s["S"],
                         L(s.get("months", [])), L(s.get("years", [])),
                         L(L(p[:2]) for p in (plan or []))]))
+    crews = case["crews"] if case["crews"] > 0 else (case.get("_crews_estimate") or case.get("_crews_used") or 0)
     return "new %s %d %d %d %d %d %d %d %d %s" % (
-        kind, case["crews"], cap, *case["start"], *case["end"], L(sites))
+        kind, crews, cap, *case["start"], *case["end"], L(sites))
 
 
 def new_reply(static):
